@@ -17,6 +17,10 @@ set(PROJECT_VERSION "verif")
 set(PROJECT_CONTACT "verif")
 configure_file(${VERIF_REPO}/xtp/include/votca/xtp/votca_xtp_config.h.in
                ${CMAKE_BINARY_DIR}/xtpcfg/votca_xtp_config.h)
+configure_file(${VERIF_REPO}/xtp/include/votca/xtp/votca_xtp_config.h.in
+               ${CMAKE_BINARY_DIR}/xtpcfg/votca/xtp/votca_xtp_config.h)
+find_package(Boost 1.71.0 REQUIRED COMPONENTS program_options filesystem system regex timer)
+find_package(Threads REQUIRED)
 find_package(HDF5 COMPONENTS CXX)
 find_package(OpenMP)
 function(verif_xtp_driver name)
